@@ -45,6 +45,8 @@ def gen_cases(seed, tier):
             'family': gen.FAMILIES[j % len(gen.FAMILIES)],
             'spectrum': spectra[(j // 3) % len(spectra)],
             'dmax': 5 if tier == 'quick' else 7})
+    for j in range(60 if tier == 'quick' else 2000):
+        out.append({'kind': 'cancel', 'seed': int(rng.integers(1 << 62))})
     for j in range(na):
         out.append({'kind': 'add_many', 'seed': int(rng.integers(1 << 62)),
             'trunc_freq': [1, 2, 15][j % 3]})
@@ -313,7 +315,30 @@ def run_add_many(case, ctx):
         'bound': bound_no_cap})
 
 
+def run_cancel(case, ctx):
+    """A small tensor stored as a difference of large terms, (X + dW) - X with
+    |dW| ~ 1e-9..1e-6 |X|: the threshold must refer to the norm of the tensor,
+    not to a cancellation-ridden scalar product of the stored cores."""
+    import teneva
+    rng = np.random.default_rng(case['seed'])
+    n = gen.rand_shape(rng, 3, 4, 2, 4)
+    d = len(n)
+    X = gen.cores(rng, n, gen.rand_ranks(rng, d, 2), 'normal')
+    dW = gen.cores(rng, n, gen.rand_ranks(rng, d, 4), 'normal')
+    for G in dW:
+        G *= (0.2 ** np.arange(G.shape[2]))[None, None, :]
+    dW[0] *= 10.0 ** rng.uniform(-9, -6)
+    Y = teneva.sub(teneva.add(X, dW), X)
+    for e in (0.3, 0.03, float(10.0 ** rng.uniform(-3, -1))):
+        for is_eigh in (True, False):
+            for stab in (False, True):
+                teneva.truncate(Y, e, 1e12, True, stab, is_eigh)
+    ctx.event('cancelling-inputs')
+
+
 def run_case(case, ctx):
+    if case['kind'] == 'cancel':
+        return run_cancel(case, ctx)
     if case['kind'] == 'trunc':
         run_trunc(case, ctx)
     else:
